@@ -288,6 +288,12 @@ pub fn drive_dir(seed: u64, tier: &str, stim: Option<&str>, zero: &str, out: &mu
     }
     let e = gen_valid_dir(&mut rng, big, true);
     run_dir_case(&DirCase { entries: e, kind: "rand" }, &[1, 2], out);
+    // highly regular directories (consecutive IDs, constant length, back-to-back offsets): they compress
+    // to far fewer bytes than they have entries
+    for n in [1000usize, if tier == "thorough" { 100_000 } else { 4000 }] {
+        let e: Vec<Entry> = (0..n as u64).map(|i| Entry { tile_id: 7 + i, run_length: 1, length: 100, offset: 100 * i }).collect();
+        run_dir_case(&DirCase { entries: e, kind: "rand" }, &all, out);
+    }
     }
     if zero == "no" {
         return;
@@ -527,10 +533,12 @@ fn run_hdr_bytes(bytes: &[u8], out: &mut Out) {
             for mode in ["sync", "async"] {
                 let w = write_header(h, mode);
                 let key = if mode == "sync" { "re_sync" } else { "re_async" };
+                // uniformly typed for TLC: bytes (possibly empty) + a result tag
                 match &w {
                     Ok(Ok(b)) => o[key] = bytes_json(b),
-                    _ => o[key] = json!(res_tag(&w)),
+                    _ => o[key] = json!([]),
                 }
+                o[format!("{key}_res")] = json!(res_tag(&w));
             }
         }
         obs.push(o);
